@@ -103,17 +103,14 @@ theorem no_gaps_exact (R : Rules) (cfg : Cfg) (fuel : Nat) (prf : List Item) (re
   have ht := checkProof_trok h
   have hne : ∀ e ∈ res.trace, e.rule ≠ gapRule := by
     intro e he hr
-    have := (ht.1 e he)
-    have hnone := this.1.mpr hr
-    have := this.2.2 hnone
+    have := ((ht.1 e he).1 hr).2
     rw [hng] at this; simp at this
   refine ⟨?_, hne⟩
   rw [ht.2, gapsOf]
-  have : res.trace.filter (fun e => e.computed.isNone) = [] := by
+  have : res.trace.filter (fun e => e.rule == gapRule) = [] := by
     rw [List.filter_eq_nil_iff]
     intro e he hc
-    have hnone : e.computed = none := by simpa using hc
-    exact hne e he ((ht.1 e he).1.mp hnone)
+    exact hne e he (by simpa using hc)
   rw [this]; rfl
 
 /-- With `no_gaps` the derivations of `accepted_justified` have no unproved leaves at all. -/
@@ -136,18 +133,7 @@ items met during the run, in order, including those inside expansions. -/
 theorem gaps_reported_exact (R : Rules) (cfg : Cfg) (fuel : Nat) (prf : List Item) (res : Res)
     (h : checkProof R cfg fuel prf = .ok res) :
     res.gaps = (res.trace.filter (fun e => e.rule == gapRule)).map (·.th) := by
-  have ht := checkProof_trok h
-  rw [ht.2, gapsOf]
-  congr 1
-  apply List.filter_congr
-  intro e he
-  have := (ht.1 e he).1
-  by_cases hc : e.computed = none
-  · simp [hc, this.mp hc]
-  · have hr : e.rule ≠ gapRule := fun hr => hc (this.mpr hr)
-    cases hcomp : e.computed with
-    | none => exact absurd hcomp hc
-    | some r => simp [hr]
+  exact (checkProof_trok h).2
 
 example : ∃ res, checkProof (Toy.rules []) ⟨false, false, 0⟩ 5 exExp = .ok res ∧
     res.gaps = [⟨[], 1⟩] ∧ res.trace.length = 4 := by
@@ -166,6 +152,47 @@ example : ∃ res, checkProof (Toy.rules []) ⟨true, false, 0⟩ 5 exPrf = .ok 
   refine ⟨_, rfl, ?_⟩; rfl
 /- a statement stronger than the computed sequent is refused -/
 example : checkProof (Toy.rules []) ⟨true, false, 0⟩ 5 [axItem 0 [1] 2 (some ⟨[], 2⟩)] = .error (.check .mismatch) := rfl
+
+/-! ### `compute_only` and `check_level` -/
+
+/-- In every mode, `compute_only` included: each statement that became citable and the returned
+theorem are no stronger than what the rules compute from the statements nobody computed (`T`:
+placeholders and, under `compute_only` only, stated sequents taken on trust).  Nothing is claimed
+about the trusted statements themselves; without `compute_only` there are none (third part). -/
+theorem compute_only_computes (R : Rules) (cfg : Cfg) (fuel : Nat) (prf : List Item) (res : Res)
+    (h : checkProof R cfg fuel prf = .ok res) :
+    (∀ e ∈ res.trace, ∃ r, Justified R (fun g => ∃ e' ∈ res.trace, e'.computed = none ∧ e'.th = g) r ∧
+      canProve r e.th = true) ∧
+    (∀ s, res.th = some s → ∃ r, Justified R (fun g => ∃ e' ∈ res.trace, e'.computed = none ∧ e'.th = g) r ∧
+      canProve r s = true) ∧
+    (∀ e ∈ res.trace, e.computed = none → e.rule = gapRule ∨ cfg.computeOnly = true) := by
+  have P := checkProof_post_gen h (fun g => ∃ e' ∈ res.trace, e'.computed = none ∧ e'.th = g)
+    (fun e he hn => ⟨e, he, hn, rfl⟩)
+  exact ⟨P.1, P.2.2, fun e he hn => ((checkProof_trok h).1 e he).2.2 hn⟩
+
+/- compute_only: line 0 states `⊢ 7` although its rule yields `1 ⊢ 2`; it is trusted, line 1 computes from it -/
+example : ∃ res, checkProof (Toy.rules []) ⟨true, true, 0⟩ 5
+      [axItem 0 [1] 2 (some ⟨[], 7⟩), ⟨[1], "verif_weaken", .num 3, [[0]], none, none⟩] = .ok res ∧
+    res.th = some ⟨[3], 7⟩ ∧ res.trace.map (·.computed) = [none, some ⟨[3], 7⟩] := by
+  refine ⟨_, rfl, ?_, ?_⟩ <;> rfl
+
+/-- The checker evaluates a macro only when its level is at most `check_level`, expands it
+otherwise, and applies a primitive rule only to an argument of the declared kind: checking against
+the rule layer with all other calls disabled (`Rules.restrict`) is the same computation.  So the
+derivations of `accepted_justified` use `eval` only for macros of level ≤ `check_level`. -/
+theorem check_level_trusts_only_leq_level (R : Rules) (cfg : Cfg) (fuel : Nat) (prf : List Item) :
+    checkProof (R.restrict cfg.checkLevel) cfg fuel prf = checkProof R cfg fuel prf ∧
+    (∀ r a ps s, (R.restrict cfg.checkLevel).eval r a ps = .ok s →
+      ∃ l, R.kind r = .macro l ∧ levelOk l cfg.checkLevel = true ∧ R.eval r a ps = .ok s) ∧
+    (∀ r a ps s, (R.restrict cfg.checkLevel).prim r a ps = .ok s →
+      R.kind r = .prim ∧ R.primSig r a = true ∧ R.prim r a ps = .ok s) :=
+  ⟨checkProof_restrict R cfg fuel prf, fun _ _ _ _ h => restrict_eval_ok h, fun _ _ _ _ h => restrict_prim_ok h⟩
+
+/- at level 0 the level-1 macro of `exExp` is expanded (4 events), at level 1 it is evaluated (1 event) -/
+example : (∃ res, checkProof (Toy.rules []) ⟨false, false, 0⟩ 5 exExp = .ok res ∧ res.trace.length = 4) ∧
+    (∃ res, checkProof (Toy.rules []) ⟨false, false, 1⟩ 5 exExp = .ok res ∧ res.trace.length = 1) ∧
+    ((Toy.rules []).restrict 0).eval "verif_exp" (.list [.list [.list [], .num 0], .list []]) [] = .error (.other 0) := by
+  refine ⟨⟨_, rfl, rfl⟩, ⟨_, rfl, rfl⟩, rfl⟩
 
 /-! ### `checked_extend` -/
 
